@@ -71,6 +71,7 @@ Menu == <<
   [c |-> "emul_es_m1",  api |-> "emul_lines", kind |-> "write", m |-> 1, ex |-> FALSE],  \* mov eax, es (es absent from m1)
   [c |-> "emul_sete_m1", api |-> "emul_lines", kind |-> "write", m |-> 1, ex |-> FALSE], \* mov es, ebx (binds es in m1)
   [c |-> "emul_rep67_m2", api |-> "emul_lines", kind |-> "write", m |-> 2, ex |-> FALSE], \* 67 f3 aa (rep stosb, 16-bit address size) with ecx bound to the shared constant K
+  [c |-> "emul_rep3_m2", api |-> "emul_lines", kind |-> "write", m |-> 2, ex |-> FALSE], \* mov ecx, 3 ; rep stosb: three iterations (the time-stamp counter of m2 is the shared constant K2)
   [c |-> "emul_div_m2", api |-> "emul_lines", kind |-> "write", m |-> 2, ex |-> TRUE]    \* div ebx with ebx = 0: raises inside eval_instr
 >>
 N == Len(Menu)
@@ -91,7 +92,7 @@ AllCalls == Menu \o Extra
 (* literals (byte strings, text lines), the shared instruction objects, the shared identifier w, the      *)
 (* shared trees T, U, Q, the program counter constant, the module-level register expressions of ia32_sem, *)
 (* and the one piece of interpreter-wide state every later import of the client depends on: sys.path      *)
-Fixtures == <<"lit", "I_shl", "I_add", "I_push", "I_pop", "I_moves", "I_sete", "I_div", "I_sse", "I_rep67", "I_popad", "K", "w", "T", "U", "Q", "Q2", "C", "pc", "regs", "sys.path">>
+Fixtures == <<"lit", "I_shl", "I_add", "I_push", "I_pop", "I_moves", "I_sete", "I_div", "I_sse", "I_rep67", "I_popad", "I_movecx3", "I_rep", "K", "K2", "w", "T", "U", "Q", "Q2", "C", "pc", "regs", "sys.path">>
 ASSUME PrintT("MENU " \o ToJson([calls |-> AllCalls, n |-> N, fixtures |-> Fixtures]))
 
 VARIABLES cfg,    \* cache configuration of the process that runs the history
